@@ -5,7 +5,7 @@ function under CPython is the reference model."""
 import ast
 import sys
 
-from sim import blockinterp, proggen
+from sim import blockinterp, defectmodel, proggen
 from sim.cosim import innermost_repo_frame
 from sim.env import Env, SimBudget, N_MAX
 from sim.log import EventLog, jdigest
@@ -439,6 +439,26 @@ def run_case(case, keep_log=False):
     res["reach"]["pipeline"] = T[0] if T[0] != "error" else "error:" + T[1]
     explicit = case.get("schedules")
     rng = Rng(case.get("env_seed", 0), "schedules")
+    model = {}
+
+    def explained(sched, other, norm):
+        """Does the defect model of the known desugaring defects (sim/defectmodel.py)
+        behave exactly like `other` = (history, outcome) on this schedule?  Only
+        consulted after a mismatch with the reference R."""
+        if "fn" not in model:
+            model["fn"] = defectmodel.build(src)
+        if model["fn"] is None:
+            return False
+        envD = Env(sched["seed"], sched["faults"])
+        outD, _n = run_traced(model["fn"], bind(params, envD, sched["a"], sched["b"]), LINE_BUDGET_R)
+        stats["model_runs"] = stats.get("model_runs", 0) + 1
+        if norm:
+            outD, other = _name_norm(outD), (other[0], _name_norm(other[1]))
+        ok = compare((envD.history, outD), other, "X") is None
+        if ok:
+            stats["model_explains"] = stats.get("model_explains", 0) + 1
+        return ok
+
     nsched = len(explicit) if explicit is not None else case.get("nsched", 40)
     histories = set()
     feats = program_features(src)
@@ -476,6 +496,8 @@ def run_case(case, keep_log=False):
             stats["t_runs"] += 1
             d = compare(ref, (envT.history, outT), "T")
             if d is not None:
+                if explained(sched, (envT.history, outT), False):
+                    d = ("known-desugaring:" + d[0],) + d[1:]
                 viol("C07", d[0], "", d[1], d[2], sched)
             verdicts.append(["T", d[0] if d else "ok"])
         for prune in (True, False):
@@ -490,6 +512,8 @@ def run_case(case, keep_log=False):
                 continue
             d = compare((ref[0], _name_norm(ref[1])), (envB.history, _name_norm(outB)), "B")
             if d is not None:
+                if explained(sched, (envB.history, outB), True):
+                    d = ("known-desugaring:" + d[0],) + d[1:]
                 viol("C08", d[0], "prune=%s" % prune, d[1], d[2], sched)
             verdicts.append(["B%d" % prune, d[0] if d else "ok"])
         log.add("schedule", [si, jdigest(envR.history), _outcome_tag(outR), verdicts])
